@@ -533,4 +533,106 @@ theorem C03_members_from_children (S : Schema) (cv : Conv) (tag : Str) (x tl : O
         · exact Or.inr hv
 
 
+/-! ### repeated members: exactly, and in document order -/
+
+/-- the positional argument a child contributes (none: it is not a repeated child the class knows) -/
+def argOf (c : Cls) (ch : Tree) (sub : PyM Node) : Option (PyM Node) :=
+  if ch.tag.contains '.' then none
+  else match specIndex c (lower ch.tag) with
+    | none => none
+    | some idx =>
+      if isListMember c (lower ch.tag) then
+        some (if unsupportedAt c idx then .ok (.val .none) else childValue ch sub)
+      else none
+
+/-- the positional arguments of a child list, in document order -/
+def argsOf (c : Cls) : List Tree → List (PyM Node) → List (PyM Node)
+  | t :: ts, s :: ss => (match argOf c t s with | some v => [v] | none => []) ++ argsOf c ts ss
+  | _, _ => []
+
+theorem updateArgs_args_exact (c : Cls) (hg : c.groom = none) (acc acc' : Accum) (ch : Tree) (sub : PyM Node)
+    (h : updateArgs c acc ch sub = .ok acc') :
+    match argOf c ch sub with
+    | some v => ∃ m, v = .ok m ∧ acc'.args = acc.args ++ [m]
+    | none => acc'.args = acc.args := by
+  unfold argOf
+  by_cases hdot : '.' ∈ ch.tag
+  · rw [updateArgs_unknown_eq c acc ch sub hg (Or.inl hdot)] at h
+    injection h with h; subst h
+    have : ch.tag.contains '.' = true := by simpa using hdot
+    simp only [this, if_true]
+  · have hd : ch.tag.contains '.' = false := by simpa using hdot
+    simp only [hd, Bool.false_eq_true, if_false]
+    cases hidx : specIndex c (lower ch.tag) with
+    | none =>
+      rw [updateArgs_unknown_eq c acc ch sub hg (Or.inr hidx)] at h
+      injection h with h; subst h; rfl
+    | some idx =>
+      rw [updateArgs_eq c acc ch sub idx hg hdot hidx] at h
+      split at h
+      · simp at h
+      · generalize hrv : (if unsupportedAt c idx = true then (Except.ok (Node.val Val.none) : PyM Node)
+          else childValue ch sub) = rv at h
+        cases rv with
+        | error e => simp [bind, Except.bind] at h
+        | ok value =>
+          simp only [bind, Except.bind] at h
+          by_cases hl : isListMember c (lower ch.tag) = true
+          · simp only [hl, if_true] at h ⊢
+            injection h with h; subst h
+            exact ⟨value, hrv, rfl⟩
+          · simp only [hl, Bool.false_eq_true, if_false] at h ⊢
+            split at h
+            · simp at h
+            · injection h with h; subst h; rfl
+
+/-- **C03 (repeated members, exactly and in order).** The positional arguments the reader collects are the values
+    of the children that carry a repeated attribute's tag, in document order. -/
+theorem foldChildren_args_exact (c : Cls) (hg : c.groom = none) : ∀ (ts : List Tree) (ss : List (PyM Node))
+    (acc acc' : Accum), foldChildren c ts ss acc = .ok acc' →
+    ∃ vs, (argsOf c ts ss).mapM (m := PyM) id = .ok vs ∧ acc'.args = acc.args ++ vs
+  | [], ss, acc, acc', h => by
+    cases ss <;> simp [foldChildren] at h <;> subst h <;> exact ⟨[], rfl, by simp⟩
+  | t :: ts, [], acc, acc', h => by
+    simp [foldChildren] at h; subst h; exact ⟨[], rfl, by simp⟩
+  | t :: ts, s :: ss, acc, acc', h => by
+    simp only [foldChildren] at h
+    cases hu : updateArgs c acc t s with
+    | error e => simp [hu, bind, Except.bind] at h
+    | ok acc1 =>
+      simp only [hu, bind, Except.bind] at h
+      obtain ⟨vs, hvs, hargs⟩ := foldChildren_args_exact c hg ts ss acc1 acc' h
+      have hstep := updateArgs_args_exact c hg acc acc1 t s hu
+      simp only [argsOf]
+      cases ha : argOf c t s with
+      | none =>
+        rw [ha] at hstep
+        exact ⟨vs, by simpa using hvs, by rw [hargs, hstep]⟩
+      | some v =>
+        rw [ha] at hstep
+        obtain ⟨m, rfl, hm⟩ := hstep
+        refine ⟨m :: vs, ?_, by rw [hargs, hm]; simp⟩
+        simp only [List.singleton_append, List.mapM_cons, id, hvs, bind, Except.bind, pure, Except.pure]
+
+/-- … hence the members of an accepted document's instance are what `_apply_args` makes of exactly those values, in
+    order (for a plain aggregate: the children's own conversions, in document order). -/
+theorem C03_members_exact (S : Schema) (cv : Conv) (tag : Str) (x tl : Option Str)
+    (children : List Tree) (ci : Nat) (c : Cls) (fields : List (Str × Node)) (items : List Node) (cj : Nat)
+    (hfind : S.findIdx? tag = some ci) (hcls : S.cls? ci = some c) (hg : c.groom = none)
+    (hne : children.isEmpty = false)
+    (h : fromEtree S cv (.node tag x tl children) = .ok (.agg cj fields items)) :
+    ∃ vs, (argsOf c children (childInsts S cv children)).mapM (m := PyM) id = .ok vs ∧
+      applyArgs S cv c vs = .ok items := by
+  simp only [fromEtree, convertNode, hfind, hcls, hne, Bool.false_eq_true, if_false] at h
+  cases hf : foldChildren c children (childInsts S cv children) Accum.init with
+  | error e => simp [hf, bind, Except.bind] at h
+  | ok acc =>
+    simp only [hf, bind, Except.bind] at h
+    obtain ⟨c', fields', items', hc', _, _, happ, _, hn⟩ := (construct_ok_iff S cv ci acc.args acc.kwargs _).mp h
+    rw [hcls] at hc'; injection hc' with hc'; subst hc'
+    injection hn with _ _ hi'; subst hi'
+    obtain ⟨vs, hvs, hargs⟩ := foldChildren_args_exact c hg children _ Accum.init acc hf
+    simp only [Accum.init, List.nil_append] at hargs
+    exact ⟨vs, hvs, by rw [← hargs]; exact happ⟩
+
 end Ofx.Agg
